@@ -267,9 +267,9 @@ def c02_forms(extended):
     add("f", "memset(dest, tainted<int,other>, n)", "auto d = Wd::tptr<char>(e.sb, 512); rlbox::memset(e.sb, d, e.NT<int>(), 4u); sink(e, d);")
     add("f", "memset(dest, 0, tainted<unsigned,other>)", "auto d = Wd::tptr<char>(e.sb, 512); rlbox::memset(e.sb, d, 0, e.NT<unsigned int>()); sink(e, d);")
     add("f", "compound volatile<int> += tainted<int,other>", "e.V<int>() += e.NT<int>(); sink(e, e.V<int>());")
-    add("n", "compound tainted<int> + tainted<int,other>", "sink(e, e.T_<int>() + e.NT<int>());")
-    add("n", "compound tainted<pint> + tainted<int,other>", "sink(e, e.T_<pint>() + e.NT<int>());")
-    add("n", "index tainted<pint>[tainted<int,other>]", "auto p = Wd::tptr<int>(e.sb, 512); sink(e, p[e.NT<int>()]);")
+    add("f", "compound tainted<int> + tainted<int,other>", "sink(e, e.T_<int>() + e.NT<int>());")
+    add("f", "compound tainted<pint> + tainted<int,other>", "sink(e, e.T_<pint>() + e.NT<int>());")
+    add("f", "index tainted<pint>[tainted<int,other>]", "auto p = Wd::tptr<int>(e.sb, 512); sink(e, p[e.NT<int>()]);")
     # round 9: a number of another sandbox type selects / becomes data of this sandbox without any unwrapping call
     add("f", "store through p[tainted<int,other>] (foreign value selects the cell)", "auto p = Wd::tptr<int>(e.sb, 512); p[e.NT<int>()] = 1; sink(e, p);")
     add("f", "store through arr[tainted<int,other>] (tainted array)", "tainted<int[4], S> a; a[e.NT<int>()] = 1; sink(e, a[0]);")
